@@ -228,7 +228,9 @@ func TestTry(t *testing.T) {
 	}
 	sc := scenarios[rf.Scenario]
 	tries := envInt("NSIM_TRIES", 0)
-	for k := 0; k <= tries; k++ {
+	stepBudget := envInt("NSIM_TRY_STEPS", 3000000)
+	usedSteps := 0
+	for k := 0; k <= tries && (k == 0 || usedSteps < stepBudget); k++ {
 		plan := *rf.Plan
 		if k > 0 {
 			r := NewRng(rf.Plan.Sched.Seed+uint64(k)*7919, purposeSched)
@@ -241,6 +243,7 @@ func TestTry(t *testing.T) {
 		}
 		fmt.Printf("TRY-RUN %d\n", k)
 		res := RunPlan(t, sc, &plan, true)
+		usedSteps += res.Steps + 200
 		for _, v := range res.Violations {
 			if v.Property == rf.Property && v.Sig == rf.Expect.Sig {
 				plan.Sched.Follow = nil
@@ -921,11 +924,12 @@ func clonePlan(p *Plan) *Plan {
 // same violation signature is found again by the original schedule or by a
 // bounded schedule re-search.
 func minimise(rf *replayFile, crash bool, tier string) *replayFile {
-	budget := 120
-	tries := 12
+	// every candidate is re-searched with up to `tries` derived schedules, bounded by a
+	// total of 3M yield points per candidate (cheap scenarios get hundreds of schedules)
+	budget := 150
+	tries := 400
 	if tier == "thorough" {
 		budget = 400
-		tries = 30
 	}
 	if crash {
 		tries = 0
@@ -993,4 +997,101 @@ func confirmReplay(path string, rf *replayFile) bool {
 		return err != nil && crashSig(eb.String()) == rf.Expect.Sig
 	}
 	return strings.Contains(ob.String(), "REPLAY-RESULT reproduced trace_hash=")
+}
+
+// ---------------------------------------------------------------------------
+// determinism self-test (DESIGN 8.1): every scenario, the same run indices
+// executed in several fresh processes at GOMAXPROCS 1, 4 and 16, all started
+// together so that they run under load; the complete result lines (trace
+// hash, verdict, violations) must be identical.
+
+func TestSelftest(t *testing.T) {
+	if os.Getenv("NSIM_MODE") != "selftest" {
+		t.Skip()
+	}
+	n := envInt("NSIM_SELFTEST_RUNS", 150)
+	base := envU64("VERIF_SEED", 1)
+	type job struct {
+		scen  string
+		procs string
+		copyN int
+		out   string
+		err   error
+	}
+	var jobs []*job
+	for _, sc := range scenarioNames() {
+		cnt := n
+		if sc == "damage" || sc == "wfault" || sc == "crashimg" {
+			cnt = n / 15
+			if cnt < 3 {
+				cnt = 3
+			}
+		}
+		for _, gp := range []string{"1", "4", "16"} {
+			for c := 0; c < 2; c++ {
+				jobs = append(jobs, &job{scen: sc, procs: gp, copyN: cnt})
+			}
+		}
+	}
+	var wg sync.WaitGroup
+	sem := make(chan struct{}, 32)
+	for _, j := range jobs {
+		j := j
+		wg.Add(1)
+		sem <- struct{}{}
+		go func() {
+			defer wg.Done()
+			defer func() { <-sem }()
+			cmd := exec.Command(os.Args[0], "-test.run", "^TestWorker$", "-test.timeout", "0")
+			cmd.Env = append(os.Environ(), "GOMAXPROCS="+j.procs, "NSIM_MODE=worker", "NSIM_SCEN="+j.scen, fmt.Sprintf("NSIM_BASE=%d", base),
+				"NSIM_FROM=0", fmt.Sprintf("NSIM_COUNT=%d", j.copyN), "NSIM_TIER=quick", "NSIM_SAMPLES=0")
+			out, err := cmd.Output()
+			var keep []string
+			for _, l := range strings.Split(string(out), "\n") {
+				if strings.HasPrefix(l, "RES ") {
+					keep = append(keep, l)
+				}
+			}
+			j.out = strings.Join(keep, "\n")
+			j.err = err
+		}()
+	}
+	wg.Wait()
+	ref := map[string]*job{}
+	bad := 0
+	total := 0
+	for _, j := range jobs {
+		if j.err != nil {
+			fmt.Printf("SELFTEST: worker for %s (GOMAXPROCS=%s) failed: %v\n", j.scen, j.procs, j.err)
+			bad++
+			continue
+		}
+		total += j.copyN
+		r := ref[j.scen]
+		if r == nil {
+			ref[j.scen] = j
+			continue
+		}
+		if r.out != j.out {
+			bad++
+			a, b := strings.Split(r.out, "\n"), strings.Split(j.out, "\n")
+			for i := 0; i < len(a) && i < len(b); i++ {
+				if a[i] != b[i] {
+					fmt.Printf("SELFTEST: %s diverges (GOMAXPROCS=%s vs %s) at line %d:\n  %s\n  %s\n", j.scen, r.procs, j.procs, i, cut(a[i], 300), cut(b[i], 300))
+					break
+				}
+			}
+		}
+	}
+	fmt.Printf("selftest: %d scenarios x 6 processes (GOMAXPROCS 1,4,16 x 2), %d run executions compared, %d mismatching processes\n", len(ref), total, bad)
+	if bad > 0 {
+		os.Exit(2)
+	}
+}
+
+func cut(s string, n int) string {
+	if len(s) > n {
+		return s[:n]
+	}
+	return s
 }
